@@ -70,10 +70,11 @@ Proof. exact commit_preserves_inv. Qed.
 Print Assumptions C03_commit_preserves_inv.
 
 (* Whole histories: starting from the empty store, after any sequence of dirty inserts (every blob
-   reference on disk or a tracked dirty child; hash-addressed), late Reference calls and commits
-   (each followed by uncache), at every crash point k of the next commit the disk is
-   closed, so every root whose top node is present is resolvable, and every root resolvable before
-   that commit is still resolvable with the same nodes. *)
+   reference on disk or a tracked dirty child; hash-addressed), late Reference calls, completed
+   commits (each followed by uncache), commits interrupted by a Write error (cache kept) and commits
+   interrupted by a crash (cache lost, restart on the disk as it is) - at every crash point k of the
+   next commit the disk is closed, so every root whose top node is present is resolvable, and every
+   root resolvable before that commit is still resolvable with the same nodes. *)
 Theorem C03_history_crash_safe : ∀ ops r seq k,
   let s := foldl step (Store ∅ ∅) ops in
   hist_ok (Store ∅ ∅) ops → run (cache s) r seq →
@@ -83,6 +84,31 @@ Theorem C03_history_crash_safe : ∀ ops r seq k,
        resolvable (crash s seq k) r' ∧ ∀ h, reach (disk s) r' h → crash s seq k !! h = disk s !! h).
 Proof. exact history_crash_safe. Qed.
 Print Assumptions C03_history_crash_safe.
+
+(* "Never invalidates older roots", over whole histories: a root that is resolvable on disk at some
+   point stays resolvable after ANY continuation (commits, failed writes, crashes, restarts), reaches
+   exactly the same nodes and they hold the same blobs. *)
+Theorem C03_durable_forever : ∀ ops1 ops2 r,
+  let s1 := foldl step (Store ∅ ∅) ops1 in
+  let s2 := foldl step (Store ∅ ∅) (ops1 ++ ops2) in
+  hist_ok (Store ∅ ∅) (ops1 ++ ops2) → resolvable (disk s1) r →
+  resolvable (disk s2) r
+  ∧ (∀ h, reach (disk s1) r h → disk s2 !! h = disk s1 !! h)
+  ∧ (∀ h, reach (disk s2) r h ↔ reach (disk s1) r h).
+Proof. exact durable_forever. Qed.
+Print Assumptions C03_durable_forever.
+
+(* "Durable and complete", over whole histories: once Commit(r) has run to the end, then after ANY
+   continuation r is on disk and resolvable from the disk alone, and every node the pre-commit view
+   (dirty cache over disk) reached from r is on disk with the same blob. *)
+Theorem C03_committed_root_survives : ∀ ops1 r seq ops2,
+  let s := foldl step (Store ∅ ∅) ops1 in
+  let s2 := foldl step (Store ∅ ∅) (ops1 ++ OCommit r seq :: ops2) in
+  hist_ok (Store ∅ ∅) (ops1 ++ OCommit r seq :: ops2) → is_Some (view s !! r) →
+  is_Some (disk s2 !! r) ∧ closed (disk s2) ∧ resolvable (disk s2) r
+  ∧ (∀ h, reach (view s) r h → disk s2 !! h = view s !! h).
+Proof. exact committed_root_survives. Qed.
+Print Assumptions C03_committed_root_survives.
 
 (* The boolean checks the correspondence run evaluates imply the hypotheses used above. *)
 Theorem C03_tree_check_sound : ∀ c t, tree_okb c t = true → run c (troot t) (flatten t).
@@ -111,4 +137,31 @@ Proof.
               (if (x =? 3)%N then 1 else 0) < (if (h =? 3)%N then 1 else 0)) (tracked cs)) (cache s)) as H.
     { apply (bool_decide_unpack _). vm_compute. exact I. }
     specialize (H h cs Hh). rewrite Forall_forall in H. by apply H.
+Qed.
+
+(* Non-vacuity of the history hypotheses: leaf 1 and node 2 -> [1] become dirty; Commit(2) gets a
+   Write error after one put (disk = {1}, cache kept); the retry dies after one put (cache lost);
+   after the restart 2 is rebuilt (its child 1 is on disk now: listed by childs(), skipped by the
+   walk), leaf 4 and node 3 -> [2; 4] become dirty, the leaf callback references 4 once more
+   (childs() lists it twice, it is put twice), Commit(3) runs to the end. *)
+Example C03_history_example :
+  let ops := [ OInsert 1%N (DNode [] []); OInsert 2%N (DNode [1%N] [1%N]);
+               OFail 2%N [1%N; 2%N] 1; OCrash 2%N [1%N; 2%N] 1;
+               OInsert 2%N (DNode [1%N] [1%N]); OInsert 4%N (DNode [] []);
+               OInsert 3%N (DNode [2%N; 4%N] [2%N; 4%N]); OReference true 4%N 3%N;
+               OCommit 3%N [4%N; 2%N; 4%N; 3%N] ] in
+  hist_ok (Store ∅ ∅) ops
+  ∧ disk (foldl step (Store ∅ ∅) ops) = {[ 1%N := []; 2%N := [1%N]; 3%N := [2%N; 4%N]; 4%N := [] ]}
+  ∧ cache (foldl step (Store ∅ ∅) ops) = ∅.
+Proof.
+  intros ops. split; [|split; apply (bool_decide_unpack _); vm_compute; exact I].
+  unfold ops. cbn [hist_ok op_ok step].
+  repeat match goal with
+  | |- _ ∧ _ => split
+  | |- insert_ok _ _ _ => apply insert_okb_sound; vm_compute; reflexivity
+  | |- True => exact I
+  end.
+  - apply (C03_tree_check_sound _ (TNode 2%N [TNode 1%N []])). by vm_compute.
+  - apply (C03_tree_check_sound _ (TNode 2%N [TNode 1%N []])). by vm_compute.
+  - apply (C03_tree_check_sound _ (TNode 3%N [TNode 4%N []; TNode 2%N [TSkip 1%N]; TNode 4%N []])). by vm_compute.
 Qed.
